@@ -41,7 +41,7 @@ class traced:
 def qmat(kind, n):
     I = np.eye(n)
     return {"identity": I, "none": I, "twice": 2 * I, "total": np.ones((1, n)), "stack": np.vstack([I, I]),
-            "id+total": np.vstack([I, np.ones((1, n))]), "prefix": np.tril(np.ones((n, n))), "first": I[:1]}[kind]
+            "id+total": np.vstack([I, np.ones((1, n))]), "prefix": np.tril(np.ones((n, n))), "first": I[:1], "w50": 50.0 * I}[kind]
 
 
 def gen_instance(rng, nattr=3, max_meas=4, zeros_prob=0.4, allow_empty=True, kinds=None, noisy=True, sizes=None):
